@@ -81,13 +81,43 @@ macro_rules! put {
 }
 
 // ------------------------------------------------------------ value generators
-pub struct G(pub Rng);
+/// Seeded generator. Every field generator mixes uniformly random values with the *structured special values* of
+/// its domain (integer width boundaries, special-purpose IP ranges, empty / boundary-length strings and lists);
+/// the specials are taken round-robin (`cur`), so that all of them occur in every run, whatever the seed.
+pub struct G(pub Rng, pub usize);
 
-const EDGE: [u64; 14] = [0, 1, 23, 24, 255, 256, 65535, 65536, 0xFFFF_FFFF, 0x1_0000_0000, u64::MAX, 764824073, 2, 1097911063];
+const EDGE: [u64; 17] = [0, 1, 23, 24, 255, 256, 65535, 65536, 0xFFFF_FFFF, 0x1_0000_0000, (1 << 63) - 1, 1 << 63, u64::MAX - 1, u64::MAX,
+                         764824073, 2, 1097911063];
+
+/// special-purpose IPv4 addresses (RFC 6890): unspecified, loopback, broadcast, TEST-NET-1, private, link-local, multicast
+pub const V4_SPECIAL: [[u8; 4]; 9] = [[0, 0, 0, 0], [127, 0, 0, 1], [255, 255, 255, 255], [192, 0, 2, 146], [10, 0, 0, 1], [169, 254, 1, 1],
+                                      [224, 0, 0, 1], [192, 168, 255, 255], [1, 0, 0, 0]];
+/// special-purpose IPv6 addresses: ::, ::1, IPv4-mapped (::ffff:a.b.c.d), IPv4-compatible (::a.b.c.d), NAT64 64:ff9b::/96,
+/// link-local fe80::/10, unique-local fc00::/7, multicast ff00::/8, 6to4 2002::/16, documentation 2001:db8::/32, all-ones
+pub const V6_SPECIAL: [u128; 14] = [
+    0,
+    1,
+    0xffff_c000_0292,
+    0xffff_0000_0000,
+    0xffff_ffff_ffff,
+    0xc000_0292,
+    0x0064_ff9b_0000_0000_0000_0000_c000_0292,
+    0xfe80_0000_0000_0000_0000_0000_0000_0001,
+    0xfd00_0000_0000_0000_0000_0000_0000_0001,
+    0xff02_0000_0000_0000_0000_0000_0000_0001,
+    0x2002_c000_0292_0000_0000_0000_0000_0001,
+    0x2001_0db8_0000_0000_0000_0000_0000_0001,
+    0xffff_0000_0000_0000_0000_0000_0000_0000,
+    u128::MAX,
+];
 
 impl G {
+    fn next(&mut self) -> usize {
+        self.1 += 1;
+        self.1
+    }
     pub fn u64(&mut self) -> u64 {
-        if self.0.bool() { *self.0.pick(&EDGE) } else { self.0.next_u64() >> self.0.below(64) }
+        if self.0.bool() { EDGE[self.next() % EDGE.len()] } else { self.0.next_u64() >> self.0.below(64) }
     }
     pub fn u32(&mut self) -> u32 {
         self.u64().min(u32::MAX as u64) as u32
@@ -99,10 +129,12 @@ impl G {
         self.u64().min(u8::MAX as u64) as u8
     }
     pub fn len(&mut self) -> usize {
-        *self.0.pick(&[0usize, 1, 2, 3, 23, 24, 25, 32, 255, 256, 300])
+        // 65535 / 65536: the 2-byte / 4-byte length head boundary (rare, they are big)
+        if self.0.chance(1, 60) { *self.0.pick(&[65535usize, 65536]) } else { *self.0.pick(&[0usize, 1, 2, 3, 23, 24, 25, 32, 255, 256, 300]) }
     }
     pub fn count(&mut self) -> usize {
-        *self.0.pick(&[0usize, 1, 2, 3, 5, 23, 24, 30])
+        // 255 / 256: the 1-byte / 2-byte count head boundary (rare)
+        if self.0.chance(1, 60) { *self.0.pick(&[255usize, 256]) } else { *self.0.pick(&[0usize, 1, 2, 3, 5, 23, 24, 30]) }
     }
     pub fn bytes(&mut self) -> Vec<u8> {
         let n = self.len();
@@ -135,11 +167,17 @@ impl G {
         }
     }
     pub fn v4(&mut self) -> Ipv4Addr {
-        Ipv4Addr::from(self.u32())
+        if self.0.bool() { Ipv4Addr::from(V4_SPECIAL[self.next() % V4_SPECIAL.len()]) } else { Ipv4Addr::from(self.u32()) }
     }
     pub fn v6(&mut self) -> Ipv6Addr {
+        if self.0.bool() {
+            return Ipv6Addr::from(V6_SPECIAL[self.next() % V6_SPECIAL.len()]);
+        }
         let w = [self.u32(), self.u32(), self.u32(), self.u32()];
         Ipv6Addr::from(((w[0] as u128) << 96) | ((w[1] as u128) << 64) | ((w[2] as u128) << 32) | w[3] as u128)
+    }
+    pub fn port(&mut self) -> u16 {
+        *self.0.pick(&[0u16, 1, 23, 24, 255, 256, 3001, 65534, 65535])
     }
     /// 0..16 distinct version numbers (N2N 7..14, N2C 32770.., small and huge ones)
     pub fn versions(&mut self) -> Vec<u64> {
@@ -163,6 +201,7 @@ impl G {
 fn p1(g: &mut G) -> (n1::Point, &'static str) {
     match g.0.below(4) {
         0 => (n1::Point::Origin, "origin"),
+        1 if g.0.bool() => (n1::Point::Specific(0, g.hash(32)), "slot0"),
         1 => (n1::Point::Specific(g.u64(), g.bytes()), "specific-anylen"),
         _ => (n1::Point::Specific(g.u64(), g.hash(32)), "specific"),
     }
@@ -240,7 +279,7 @@ where
 
 fn peer1(g: &mut G, v6: bool) -> n1::peersharing::PeerAddress {
     use n1::peersharing::PeerAddress::*;
-    if v6 { V6(g.v6(), g.u16() as _) } else { V4(g.v4(), g.u16() as _) }
+    if v6 { V6(g.v6(), g.port() as _) } else { V4(g.v4(), g.port() as _) }
 }
 
 fn peers_class(n: usize, n6: usize) -> &'static str {
@@ -398,6 +437,7 @@ pub fn stack1(o: &mut Out, g: &mut G) {
 fn p2(g: &mut G) -> (n2::Point, &'static str) {
     match g.0.below(4) {
         0 => (n2::Point::Origin, "origin"),
+        1 if g.0.bool() => (n2::Point::Specific(0, g.hash(32)), "slot0"),
         1 => (n2::Point::Specific(g.u64(), g.bytes()), "specific-anylen"),
         _ => (n2::Point::Specific(g.u64(), g.hash(32)), "specific"),
     }
@@ -511,7 +551,7 @@ pub fn stack2(o: &mut Out, g: &mut G) {
             let n = if mode == 0 && g.0.chance(1, 3) { 0 } else { 1 + g.0.below(6) as usize };
             let kinds: Vec<bool> = (0..n).map(|_| mode == 1 || (mode == 2 && g.0.bool())).collect();
             let n6 = kinds.iter().filter(|k| **k).count();
-            let peers: Vec<_> = kinds.iter().map(|k| if *k { V6(g.v6(), g.u16()) } else { V4(g.v4(), g.u16()) }).collect();
+            let peers: Vec<_> = kinds.iter().map(|k| if *k { V6(g.v6(), g.port()) } else { V4(g.v4(), g.port()) }).collect();
             put!(o, "n2", "peersharing", "SharePeers", peers_class(n, n6), SharePeers(peers));
         }
         put!(o, "n2", "peersharing", "Done", "-", Done);
@@ -543,14 +583,44 @@ pub fn stack2(o: &mut Out, g: &mut G) {
     }
 }
 
+/// Seed-independent sweep: every structured special value of the address / port / integer domains, in both stacks,
+/// one message per value (so that a finding names the value class).
+pub fn specials(o: &mut Out) {
+    for (k, a) in V6_SPECIAL.iter().enumerate() {
+        let port = [0u16, 65535, 3001][k % 3];
+        let class = format!("ipv6-special/{}", Ipv6Addr::from(*a));
+        put!(o, "n1", "peersharing", "SharePeers", &class, n1::peersharing::Message::SharePeers(vec![n1::peersharing::PeerAddress::V6(Ipv6Addr::from(*a), port as _)]));
+        put!(o, "n2", "peersharing", "SharePeers", &class, n2::peersharing::Message::SharePeers(vec![n2::peersharing::PeerAddress::V6(Ipv6Addr::from(*a), port)]));
+    }
+    for (k, a) in V4_SPECIAL.iter().enumerate() {
+        let port = [65535u16, 0, 3001][k % 3];
+        let class = format!("ipv4-special/{}", Ipv4Addr::from(*a));
+        put!(o, "n1", "peersharing", "SharePeers", &class, n1::peersharing::Message::SharePeers(vec![n1::peersharing::PeerAddress::V4(Ipv4Addr::from(*a), port as _)]));
+        put!(o, "n2", "peersharing", "SharePeers", &class, n2::peersharing::Message::SharePeers(vec![n2::peersharing::PeerAddress::V4(Ipv4Addr::from(*a), port)]));
+    }
+    for v in EDGE {
+        let class = format!("edge/{v}");
+        let h = vec![0xABu8; 32];
+        put!(o, "n1", "chainsync-block", "RollBackward", &class,
+             n1::chainsync::Message::<n1::chainsync::BlockContent>::RollBackward(n1::Point::Specific(v, h.clone()), n1::chainsync::Tip(n1::Point::Specific(v, h.clone()), v)));
+        put!(o, "n2", "chainsync-block", "RollBackward", &class,
+             n2::chainsync::Message::<n2::chainsync::BlockContent>::RollBackward(n2::Point::Specific(v, h.clone()), n2::chainsync::Tip(n2::Point::Specific(v, h.clone()), v)));
+        put!(o, "n1", "keepalive", "KeepAlive", &class, n1::keepalive::Message::KeepAlive(v.min(65535) as u16));
+        put!(o, "n2", "keepalive", "KeepAlive", &class, n2::keepalive::Message::KeepAlive(v.min(65535) as u16));
+        put!(o, "n1", "txmonitor", "Acquired", &class, n1::txmonitor::Message::Acquired(v));
+        put!(o, "n2", "leiosnotify", "BlockOffer", &class, n2::leiosnotify::Message::BlockOffer(n2::Point::Specific(v, h.clone()), v.min(u32::MAX as u64) as u32));
+    }
+}
+
 pub fn trace(args: &Args) {
     let mut o = Out { w: Ndjson::create(args.get("out")) };
-    let mut g = G(Rng::new(args.seed()));
+    let mut g = G(Rng::new(args.seed()), 0);
     let rounds = args.num("rounds", 4);
     for _ in 0..rounds {
         stack1(&mut o, &mut g);
         stack2(&mut o, &mut g);
     }
+    specials(&mut o);
     let corpus = crate::reject::corpus(&mut o);
     let n = o.w.finish();
     println!("{}", json!({"events": n, "corpus": corpus}));
